@@ -330,6 +330,9 @@ func (v *Verifier) isAbstract(t types.Type) bool {
 
 func (v *Verifier) zeroValue(t types.Type) Value {
 	if v.isAbstract(t) {
+		if s := v.abstractSort(t); s != SInt {
+			return v.F.Var("zero."+s.Name, s)
+		}
 		return v.F.I64(0)
 	}
 	switch u := t.Underlying().(type) {
@@ -382,7 +385,7 @@ func (v *Verifier) zeroValue(t types.Type) Value {
 // symbolic value of type t named by prefix
 func (v *Verifier) symValue(prefix string, t types.Type, entry bool) Value {
 	if v.isAbstract(t) {
-		return v.F.Var(prefix, SInt)
+		return v.F.Var(prefix, v.abstractSort(t))
 	}
 	switch u := t.Underlying().(type) {
 	case *types.Basic:
@@ -427,7 +430,7 @@ func (v *Verifier) symValue(prefix string, t types.Type, entry bool) Value {
 
 func (v *Verifier) scalarSort(t types.Type) *Sort {
 	if v.isAbstract(t) {
-		return SInt
+		return v.abstractSort(t)
 	}
 	if isBool(t) {
 		return SBool
@@ -441,7 +444,14 @@ func (v *Verifier) scalarSort(t types.Type) *Sort {
 func (v *Verifier) symSlice(prefix string, elem types.Type, entry bool, isStr bool) Value {
 	s := v.scalarSort(elem)
 	if s == nil {
-		unsup("slice of non-scalar element type %s (%s)", elem, prefix)
+		// slice of aggregates (nested slices, structs): the header is symbolic, the contents are not modelled;
+		// any access to an element is reported as outside the subset at that point
+		o := v.newObject(prefix+" (contents not modelled)", types.NewSlice(elem), entry)
+		max := big.NewInt(1 << 40)
+		ln := v.F.RangedVar(prefix+"@len", big.NewInt(0), max)
+		cp := v.F.RangedVar(prefix+"@cap", big.NewInt(0), max)
+		v.initFacts = append(v.initFacts, v.F.Le(ln, cp))
+		return &SliceV{Obj: o, Off: v.F.I64(0), Len: ln, Cap: cp}
 	}
 	arr := v.F.Var(prefix+"@arr", arraySort(s))
 	if ii, ok := intKind(elem); ok && !v.isAbstract(elem) {
@@ -468,6 +478,13 @@ func (v *Verifier) content(st *State, o *Object) Value {
 	}
 	if c, ok := v.constObjs[o]; ok {
 		return c
+	}
+	if c, ok := v.initMem[o]; ok {
+		st.mem[o] = c
+		return c
+	}
+	if o.Global {
+		unsup("package-level variable %s is not modelled (mutable or of an unsupported type)", o.Name)
 	}
 	unsup("object %s has no content", o)
 	return nil
@@ -857,6 +874,17 @@ func (fr *Frame) run(b, pred *ssa.BasicBlock, st *State, stop *ssa.BasicBlock) (
 					fr.evalPhis(b, pred, st)
 					phisDone = true
 				}
+				// loop-carried variables are visible to the invariant under their source names
+				for _, ins := range b.Instrs {
+					p, ok := ins.(*ssa.Phi)
+					if !ok {
+						break
+					}
+					if p.Comment != "" {
+						st.srcVar[p.Comment] = st.env()[p]
+						st.srcAdr[p.Comment] = false
+					}
+				}
 				if pred != nil && body[pred] {
 					// back edge: assert invariant, end path
 					fr.applyAnnot(st, ann, fmt.Sprintf("loop%d:preserve", fr.loopOrd[b]), true, false)
@@ -924,6 +952,14 @@ func (fr *Frame) run(b, pred *ssa.BasicBlock, st *State, stop *ssa.BasicBlock) (
 				continue
 			}
 			j := fr.ipdom[b]
+			if fr.v.noMerge && fr.top {
+				// path splitting: each arm runs to the end of the function separately
+				stT := fr.fork(st, cv)
+				stF := fr.fork(st, fr.v.F.Not(cv))
+				a1 := fr.run(b.Succs[0], b, stT, stop)
+				a2 := fr.run(b.Succs[1], b, stF, stop)
+				return append(a1, a2...)
+			}
 			stT := fr.fork(st, cv)
 			stF := fr.fork(st, fr.v.F.Not(cv))
 			arrT := fr.run(b.Succs[0], b, stT, j)
